@@ -83,6 +83,10 @@ def gen_case(rng, ids):
 
 def oracle(c, cs, out, prop):
     """Independent statements on the implementation's own trace."""
+    if out.startswith("HANG") or "END exc:HANG" in out:
+        c.violation("Python layer: %s on script %s never returns (%s client)" % (cs["api"][0], ",".join(cs["script"])[:80], "blocking" if cs["mode"] == "s" else "asyncio"),
+                    {"case": cs, "outcome": out}, key="pylayer-hang:" + cs["api"][0])
+        return
     if not out.startswith("EV "):
         return
     ev, items, end, rest = [x.split(" ", 1)[1] if " " in x else "" for x in out.split(" | ")]
@@ -134,7 +138,16 @@ def run(c, cexe, rng, n, prop):
         return 0, 0
     dis = 0
     stats = {}
-    for (cs, m), o in zip(keep, res["pylayer"]):
+    outs = list(res["pylayer"])
+    # a disagreement that involves the wall clock is repeated once with a ten times longer timeout before it counts
+    again = [i for i, ((cs, m), o) in enumerate(zip(keep, outs)) if o != m and "t" in cs["script"]]
+    if again:
+        res2, log2 = vf.run_api_worker("pylayer", {"pylayer_cases": [dict(keep[i][0], timeout=1.5) for i in again]})
+        if res2 is not None:
+            for i, o2 in zip(again, res2["pylayer"]):
+                outs[i] = o2
+        c.coverage["python_layer_retried_for_timing"] = len(again)
+    for (cs, m), o in zip(keep, outs):
         c.count(("pylayer", pl.model_line(cs)), len(cs["script"]) >= 2)
         k = (cs["mode"], cs["api"][0], m.split(" | ")[2].split(":")[0])
         stats[k] = stats.get(k, 0) + 1
